@@ -17,7 +17,7 @@ import re
 from vlib.hostlist import (HL, Cli, WFGen, LIMIT, hx, unhx, parse_probe, parse_spec, same_answer, feat_big,
                            feat_longplain, feat_first_group_complete, feat_d16, gen_malformed, exhaustive, names_field, U64,
                            impl_tokens,
-                           VERIF_CORPUS)
+                           VERIF_CORPUS, pinned_classes, cli_phase)
 
 LEVEL = "proof"
 PROPS = "PdshVerif.Props.C15"
@@ -148,6 +148,9 @@ def run(ctx):
             return
         for s in load_corpus():
             yield (s, "corpus")
+        for s in pinned_classes():
+            dist["pinned-classes"] = dist.get("pinned-classes", 0) + 1
+            yield (s, "pinned")
         wf = WFGen(rng, max_hosts=300)
         for _ in range(3200 if ctx.quick() else 40000):
             yield (gen_malformed(rng, wf, dist), "generated")
@@ -187,7 +190,7 @@ def run(ctx):
         dist["forked"] = hl.nfork
         dist["classes(spec -> impl)"] = dict(sorted(classes.items(), key=lambda kv: -kv[1])[:40])
         if not ctx.replay:
-            cli_check(ctx, hl, dist, cov)
+            cli_phase(ctx, cli_check, ctx, hl, dist, cov)
         else:
             rep = json.load(open(ctx.replay))
             if rep["case"].get("origin") == "cli":
@@ -295,7 +298,7 @@ def cli_check(ctx, hl, dist, cov, only=None, only_q=None):
         for s in wide:
             for attempt in (0, 1):
                 rc, out, err = cli.run(["-q", "-w", s.decode("latin1")], timeout=20)
-                if rc != "timeout":
+                if rc != "timeout" or cli.runaway:
                     break
             cls = cli.diag(rc, err) if rc != 0 else "ok"
             dist["cli-q-wide"] += 1
